@@ -10,6 +10,8 @@ ops (all byte strings in hex, `-` = empty):
          flags ⊆ "raocn" or "-": r = may keep the announcement tag, a = anonymous board, o = open board (ALLPOST copy),
          c = credited, n = not permitted (the request is refused before anything is written)
          lines = "." (none) or comma separated hex lines
+  config <5 bits>    HAVE_ANONYMOUS ALLOW_FREE_TN_ANNOUNCE USE_POST_ENTROPY QUERY_ARTICLE_URL USE_AID_URL for the posts
+                     that follow (reset restores the defaults of the source)
   load   <session> <userID>                    keep a freshly loaded user record under a session name
   postas <session> <board> <dirBoard> <flags> <ip> <from> <class> <title> <lines>
                                                ptt.NewPost with the kept (possibly stale) record; prints its NumPosts as cnp=
@@ -47,6 +49,7 @@ structure DSt where
   st : St
   utab : List (List Nat × Nat × List Nat)
   sessions : List Session := []
+  cfg : Cfg := {}
 
 def parseReset (toks : List String) : Option DSt :=
   toks.foldlM (init := ({ st := { boards := [], users := [], postLog := C05.FS.absent }, utab := [] } : DSt)) fun d t =>
@@ -125,7 +128,7 @@ def parseReq (d : DSt) (toks : List String) : Option (Req × Bool) :=
     let lines ← parseLines lines
     pure ({ board := board, dirBoard := dirBoard, userID := user, nick := nick, uid := uid,
             role := fl.contains 'r', anon := fl.contains 'a', isOpen := fl.contains 'o',
-            credit := fl.contains 'c', ip := ip, frm := frm, cls := cls, title := title, lines := lines },
+            credit := fl.contains 'c', ip := ip, frm := frm, cls := cls, title := title, lines := lines, cfg := d.cfg },
           fl.contains 'n')
   | _ => none
 
@@ -159,6 +162,14 @@ def stepC09 (st : Option DSt) (ws : List String) : Option DSt × String :=
     match parseReset toks with
     | some s => (some s, "ok")
     | none => (st, "bad-op")
+  | ["config", bits] =>
+    match st, bits.toList with
+    | some d, [a, b, c, u, v] =>
+      if [a, b, c, u, v].all (fun x => x = '0' ∨ x = '1') then
+        (some { d with cfg := { haveAnonymous := a = '1', allowFreeTn := b = '1', usePostEntropy := c = '1',
+                                queryURL := u = '1', useAidURL := v = '1' } }, "ok")
+      else (st, "bad-op")
+    | _, _ => (st, "bad-op")
   | ["defuse", h] =>
     match parseHex h with
     | some l => (st, showM toHex (stripANSIMoveCmd l))
